@@ -470,6 +470,44 @@ var amplifiers = []struct {
 		}
 		return b.String()
 	}},
+	{"call-diamond", 48, func(n int) string {
+		// every helper calls the previous one twice: 2^n paths through a graph of n nodes
+		var b strings.Builder
+		b.WriteString("fn f0() -> i32 { return 1; }\n")
+		for i := 1; i <= n; i++ {
+			fmt.Fprintf(&b, "fn f%d() -> i32 { return f%d() + f%d(); }\n", i, i-1, i-1)
+		}
+		fmt.Fprintf(&b, "@group(0) @binding(0) var<storage, read_write> o: i32;\n@compute @workgroup_size(1) fn main() { o = f%d(); }\n", n)
+		return b.String()
+	}},
+	{"call-diamond-global", 52, func(n int) string {
+		var b strings.Builder
+		b.WriteString("@group(0) @binding(0) var<storage, read_write> o: i32;\nvar<private> p: i32;\nfn f0() -> i32 { p += 1; return o; }\n")
+		for i := 1; i <= n; i++ {
+			fmt.Fprintf(&b, "fn f%d() -> i32 { return f%d() + f%d(); }\n", i, i-1, i-1)
+		}
+		fmt.Fprintf(&b, "@compute @workgroup_size(1) fn main() { o = f%d(); }\n", n)
+		return b.String()
+	}},
+	{"let-diamond", 22, func(n int) string {
+		// an expression DAG: every let uses the previous one twice
+		var b strings.Builder
+		b.WriteString("@group(0) @binding(0) var<storage, read_write> o: u32;\n@compute @workgroup_size(1) fn main() { let a0 = o;\n")
+		for i := 1; i <= n; i++ {
+			fmt.Fprintf(&b, "let a%d = a%d + a%d;\n", i, i-1, i-1)
+		}
+		fmt.Fprintf(&b, "o = a%d; }\n", n)
+		return b.String()
+	}},
+	{"const-diamond", 26, func(n int) string {
+		var b strings.Builder
+		b.WriteString("const c0 = 1u;\n")
+		for i := 1; i <= n; i++ {
+			fmt.Fprintf(&b, "const c%d = c%d ^ c%d;\n", i, i-1, i-1)
+		}
+		fmt.Fprintf(&b, "@group(0) @binding(0) var<storage, read_write> o: u32;\n@compute @workgroup_size(1) fn main() { o = c%d; }\n", n)
+		return b.String()
+	}},
 	{"alias-chain", 22, func(n int) string {
 		var b strings.Builder
 		b.WriteString("alias T0 = i32;\n")
